@@ -30,7 +30,7 @@ Transcription notes (what the C++ does, not what it should do):
   and the add-back step; `KStats` reports how often each fired.
 * `toChars` is `cnl::to_chars` (charconv/to_chars.h) composed from the wide operators (`value / 10`,
   `value - quotient * 10`); it only instantiates for *signed* multi-limb `wide_integer`.
-* conversion to/from floating point is not transcribed.
+* conversion to/from floating point is transcribed in `CnlModel/WideFloat.lean`.
 Lean core only.
 -/
 namespace Cnl.Wide
